@@ -7,7 +7,8 @@ from vf import build, pipeline
 from vf.check import Broken, ROOT
 from vf.tlc import tla_set
 
-INV = ["TypeOK", "UnwrapIsInverse"]
+INV = ["TypeOK", "UnwrapIsInverse", "WrapTemplateHonoured", "UnwrapTemplateHonoured"]
+ALLTMPLS = ["none", "empty", "encT", "encF", "ktAes", "ktAesEncF", "ktDes3"]
 ALLMODES = ["aes-ecb", "aes-cbc", "aes-cbcpad", "aes-ctr", "aes-gcm", "aes-cmac", "des3-cbcpad", "des3-cmac", "des3-ecb",
             "hmac-sha256", "hmac-sha1", "hmac-sha512", "rsa-pkcs", "sha256-rsa-pkcs", "rsa-x509", "eddsa", "aes-gcm2", "aes-ctr64"]
 ALLR = ["sha256-rsa-pss", "rsa-oaep", "rsa-pkcs-enc", "ecdsa", "dsa-sha256"]
@@ -24,15 +25,15 @@ NEEDS = {"KW": ["AES_KEY_WRAP"], "KWP": ["AES_KEY_WRAP_PAD"], "CBC": ["AES_CBC"]
          "eddsa": ["EDDSA"], "aes-gcm2": ["AES_GCM"], "aes-ctr64": ["AES_CTR"], "dsa-sha256": ["DSA_SHA256"]}
 TC = dict(MaxK="8", MaxB="4", Kinds=tla_set(ALLKINDS), WrapMechs='{"KW", "KWP", "CBC", "CBCPAD", "RSA", "OAEP"}',
           DerMechs='{"ECB", "CBCD", "CATBD", "CATDB", "DH", "ECDH"}', Datas="{0, 1, 2, 3, 4}", Modes=tla_set(ALLMODES),
-          RModes=tla_set(ALLR), Chunks="{0, 1, 2, 3, 4, 5}", ImpIdx="{1, 2}",
-          Acts='{"imp", "gen", "wrap", "damage", "unwrap", "unwrapas", "derive", "value", "crypt", "digest", "rcrypt"}',
+          RModes=tla_set(ALLR), Chunks="{0, 1, 2, 3, 4, 5}", ImpIdx="{1, 2}", WTmpls=tla_set(ALLTMPLS), UTmpls=tla_set(ALLTMPLS),
+          Acts='{"imp", "impt", "gen", "wrap", "damage", "unwrap", "unwrapt", "unwrapas", "derive", "value", "crypt", "digest", "rcrypt"}',
           Dev="{}")
 
 
-def C(kinds, acts, maxk=3, maxb=1, wrap=(), der=(), datas=(2,), modes=(), rmodes=(), chunks=(0,), imp=(1,)):
+def C(kinds, acts, maxk=3, maxb=1, wrap=(), der=(), datas=(2,), modes=(), rmodes=(), chunks=(0,), imp=(1,), wt=("none",), ut=("none",)):
     return dict(MaxK=str(maxk), MaxB=str(maxb), Kinds=tla_set(kinds), WrapMechs=tla_set(wrap), DerMechs=tla_set(der),
                 Datas=tla_set(datas), Modes=tla_set(modes), RModes=tla_set(rmodes), Chunks=tla_set(chunks), ImpIdx=tla_set(imp),
-                Acts=tla_set(acts))
+                WTmpls=tla_set(wt), UTmpls=tla_set(ut), Acts=tla_set(acts))
 
 
 def advertised(lib):
@@ -59,6 +60,13 @@ def wrap_graphs(quick, lib, extra, common=None):
           dict(name="rsawrap", constants=C(["rsa", "aes16", "gen20"], A, wrap=ok(["RSA", "OAEP"])), maxwalks=w // 2),
           dict(name="mixwrap", constants=C(["aes16", "aes32"], A, wrap=ok(["KW", "CBCPAD", "KWP"]), imp=(1, 2)), maxwalks=w // 2),
           dict(name="privwrap", constants=C(["aes16", "rsa", "gen16"], A, wrap=ok(["KWP", "CBCPAD"])), maxwalks=w // 2),
+          # CKA_WRAP_TEMPLATE / CKA_UNWRAP_TEMPLATE of the wrapping key (AES, and the RSA pair)
+          dict(name="wtmpl", constants=C(["aes16", "des3"], ["impt", "two", "wrap", "unwrapt", "value"], wrap=ok(["KWP"]),
+                                         wt=ALLTMPLS), maxwalks=w),
+          dict(name="utmpl", constants=C(["aes16", "des3"], ["impt", "two", "wrap", "unwrapt", "value"], wrap=ok(["KWP"]),
+                                         ut=ALLTMPLS), maxwalks=w),
+          dict(name="tmpl-rsa", constants=C(["rsa", "aes16"], ["impt", "two", "wrap", "unwrapt"], wrap=ok(["OAEP", "KWP"]),
+                                            wt=["none", "encF", "ktAes"], ut=["none", "encF", "ktAes"]), maxwalks=w // 2),
           dict(name="derive", constants=C(["aes16", "aes32", "des3", "gen20"], ["imp", "derive", "value"],
                                           der=ok(["ECB", "CBCD", "CATBD", "CATDB"]), datas=(1, 2, 3)), maxwalks=w),
           dict(name="pkderive", constants=C(["dh", "ec", "gen20", "aes16", "gen64"], ["imp", "derive", "value"], maxk=2,
